@@ -389,3 +389,38 @@ def oracleC13 (o : Opts) (env : Env) (inN outN : Node) : Verdict :=
   | none => .ok
 
 end VueJsx
+
+/-! ### C15: the vnode factory -/
+namespace VueJsx
+
+def oracleC15 (o : Opts) (env : Env) (inN outN : Node) : Verdict :=
+  if o.mergeProps && anyDroppedDuplicate inN then .skip "repeated-non-mergeable-attribute" else
+  let pragma := effectivePragma o env            -- from the SPEC-level comment scan (Text.pragmaOfComment) and the option
+  let roles := rolesOfModule outN
+  let isJsx (n : Node) : Bool := n.kind == .jsxElement || n.kind == .jsxFragment
+  let expected := (collect isJsx inN).length - (collect isJsx outN).length
+  let synCalls := collect (fun n => match n with | .mk .call ("syn" :: _) _ => true | _ => false) outN
+  let calleeOf (c : Node) : Node := (c.kids.head?).getD nNone
+  let items : List Node := match outN with
+    | .mk .module _ (.mk .list _ items :: _) => items
+    | _ => []
+  let vueImports := items.filter fun (it : Node) =>
+    match it with
+    | .mk .importDecl _ (.mk .list _ specs :: .mk .str ("vue" :: _) _ :: _) =>
+      !specs.isEmpty && specs.all fun (s : Node) => match s with | .mk .importSpec _ (.mk .ident (_ :: b :: _) _ :: _) => isGenBind b | _ => false
+    | _ => false
+  let createVNodeImports := (roles.filter (·.2 == "createVNode")).length
+  match pragma with
+  | some p =>
+    let n := (synCalls.filter fun c => match calleeOf c with | .mk .ident (nm :: b :: _) _ => nm == p && b == "e" | _ => false).length
+    if n != expected then .fail "pragma-callee" s!"{expected} elements/fragments lowered but {n} calls of the pragma identifier {p}"
+    else if createVNodeImports != 0 then .fail "createVNode-imported-with-pragma" "createVNode is imported although a pragma names the factory"
+    else .ok
+  | none =>
+    let n := (synCalls.filter fun c => roleOf roles none (calleeOf c) == some "createVNode").length
+    if n != expected then .fail "createVNode-callee" s!"{expected} elements/fragments lowered but {n} calls of the imported createVNode"
+    else if expected > 0 && createVNodeImports != 1 then .fail "createVNode-import-count" s!"createVNode imported {createVNodeImports} times"
+    else if vueImports.length > 1 then .fail "vue-import-count" s!"{vueImports.length} generated imports from 'vue'"
+    else .ok
+
+end VueJsx
